@@ -701,6 +701,7 @@ type program struct {
 	vals  []Value
 	only  *expr // when set, only the leaves this expression uses become parameters / locals
 	force bool  // every variant starts with "zz_ = 0", which makes the compiler run its propagation pass over the whole function
+	parts []func(sb *strings.Builder, name func(int) string) // statement programs: the body of every statement template on its own
 }
 
 func leavesOf(e *expr, used map[int]bool) {
@@ -861,6 +862,16 @@ func (pg *program) deadOperandError(want string) (string, bool) {
 	for _, root := range pg.p.roots {
 		if walk(root) {
 			return found, true
+		}
+	}
+	// a statement that throws on its own at run time (e.g. if with a non-boolean operand)
+	for _, part := range pg.parts {
+		sub := &program{p: &prog{leaves: pg.p.leaves}, body: part, trace: pg.trace, nOrig: pg.nOrig, vals: pg.vals, force: pg.force}
+		src, args, _ := sub.source(vRun)
+		if o := run(src, args); o.err != "" && !o.compile && normErr(o.err) == want {
+			var sb strings.Builder
+			part(&sb, func(k int) string { return pg.p.leaves[k].lit })
+			return strings.TrimSpace(sb.String()), true
 		}
 	}
 	return "", false
@@ -1103,6 +1114,9 @@ func TestVerifC30(t *testing.T) {
 		if r.IntN(4) == 0 {
 			sp = genStmtProg(r, confuse, tracing)
 			pg.p, pg.body, pg.trace = &sp.prog, sp.body, sp.usesTrace
+			for _, part := range sp.parts {
+				pg.parts = append(pg.parts, sp.bodyOf(part))
+			}
 			kind = "stmt"
 			rep.Seen("stmt_kinds", sp.kind)
 			rep.Count("statement_programs", 1)
